@@ -302,6 +302,7 @@ void add_type(Node *node) {
     if (node->lhs->ty->kind != TY_PTR)
       error_tok(node->cas_addr->tok, "pointer expected");
     node->ty = node->lhs->ty->base;
+    node->rhs = new_cast(node->rhs, node->ty);
     return;
   }
 }
